@@ -143,7 +143,56 @@ fn dict_probe() {
     }
 }
 
+fn ree_probe() {
+    use arrow_array::types::Int16Type;
+    use arrow_schema::Fields;
+    // Struct { x: RunEndEncoded<Int16, Utf8> (runs: "a" x2, null x1), y: Int64 }
+    let re = Int16Array::from(vec![2i16, 3]);
+    let vals = StringArray::from(vec![Some("a"), None]);
+    let ree: ArrayRef = Arc::new(RunArray::<Int16Type>::try_new(&re, &vals).unwrap());
+    let y: ArrayRef = Arc::new(Int64Array::from(vec![1i64, 2, 3]));
+    for nested in [false, true] {
+        let (schema, batch) = if nested {
+            let fields = Fields::from(vec![Field::new("x", ree.data_type().clone(), true), Field::new("y", DataType::Int64, true)]);
+            let st: ArrayRef = Arc::new(StructArray::new(fields.clone(), vec![ree.clone(), y.clone()], None));
+            let schema = Arc::new(Schema::new(vec![Field::new("c", DataType::Struct(fields), true)]));
+            (schema.clone(), RecordBatch::try_new(schema, vec![st]).unwrap())
+        } else {
+            let schema = Arc::new(Schema::new(vec![Field::new("x", ree.data_type().clone(), true), Field::new("y", DataType::Int64, true)]));
+            (schema.clone(), RecordBatch::try_new(schema, vec![ree.clone(), y.clone()]).unwrap())
+        };
+        let name = if nested { "struct-of-ree" } else { "top-level-ree" };
+        println!("{name}: in {:?}", vcore::tok::batch_rows(&batch));
+        let mut w = match WriterBuilder::new(schema.as_ref().clone()).build::<_, AvroOcfFormat>(Vec::new()) {
+            Ok(w) => w,
+            Err(e) => {
+                println!("{name}: writer refused: {e}");
+                continue;
+            }
+        };
+        if let Err(e) = w.write(&batch) {
+            println!("{name}: write failed: {e}");
+            continue;
+        }
+        w.finish().unwrap();
+        let bytes = w.into_inner();
+        let hdr = arrow_avro::reader::read_header_info(Cursor::new(bytes.clone())).unwrap();
+        println!("{name}: schema {}", hdr.writer_schema().unwrap().json_string);
+        println!("{name}: data {:?}", &bytes[hdr.header_len() as usize..bytes.len() - 16]);
+        let (tx, rx) = std::sync::mpsc::channel();
+        std::thread::spawn(move || {
+            let r = ReaderBuilder::new().build(Cursor::new(bytes)).map(|rd| rd.map(|b| b.map(|b| vcore::tok::batch_rows(&b)).map_err(|e| e.to_string())).collect::<Vec<_>>());
+            let _ = tx.send(format!("{:?}", r.map_err(|e| e.to_string())));
+        });
+        match rx.recv_timeout(std::time::Duration::from_secs(5)) {
+            Ok(r) => println!("{name}: read {r}"),
+            Err(_) => println!("{name}: NO RETURN within 5 s (the reader spins)"),
+        }
+    }
+}
+
 pub fn run() {
+    ree_probe();
     dict_probe();
     findings_probe();
     json_probe();
